@@ -200,7 +200,7 @@ theorem Inv.ofAddNode (st : St) (node : Node) (h : Inv' st (N st + 1)) :
 theorem rawExt_fail (st : St) (e : String) : RawExt st (fail st e) := by
   unfold fail
   split
-  · exact RawExt.refl st
+  · exact ⟨⟨[], by simp, by simp⟩, rfl⟩
   · exact ⟨⟨[], by simp, by simp⟩, rfl⟩
 
 theorem Inv.congr {a b : St} (hk : b.vkeys = a.vkeys) (hc : b.cur = a.cur) (hs : b.stack = a.stack)
@@ -286,6 +286,24 @@ theorem Inv.doBeginSub (st : St) (g : String) (ins : List String) (h : Inv st) :
   simp only [sumNodes] at this
   omega
 
+/-- dropping the sub-builder moves its graph to the finished ones: no key, no node is lost. -/
+theorem rawExt_abandon (st : St) : RawExt st (abandon st) := by
+  unfold abandon
+  split
+  · exact RawExt.refl st
+  · rename_i parent rest hs
+    refine ⟨⟨[], by simp, by simp⟩, ?_⟩
+    rw [N_def, N_def, hs]
+    simp only [sumNodes_append]
+    simp only [sumNodes, List.map_cons, List.sum_cons, List.map_nil, List.sum_nil]
+    omega
+
+theorem rawExt_doAbortSub (st : St) : RawExt st (doAbortSub st) := by
+  unfold doAbortSub
+  split
+  · exact rawExt_fail st _
+  · exact rawExt_abandon st
+
 theorem Inv.doEndSub (st : St) (rets : List Nat) (declared : List String) (h : Inv st) :
     Inv (doEndSub st rets declared) := by
   unfold OV.C18.doEndSub
@@ -293,7 +311,7 @@ theorem Inv.doEndSub (st : St) (rets : List Nat) (declared : List String) (h : I
   · exact Inv.rawExt h (rawExt_fail st _)
   · rename_i parent rest hs
     split
-    · exact Inv.rawExt h (rawExt_fail st _)
+    · exact Inv.rawExt h (RawExt.trans (rawExt_abandon st) (rawExt_fail _ _))
     · simp only []
       generalize hfold : List.foldl _ st _ = st1
       have hf : st1.vkeys = st.vkeys ∧ st1.cur = st.cur ∧ st1.stack = st.stack ∧ st1.done = st.done := by
@@ -413,9 +431,14 @@ theorem KE.congr {x a b : St} (hk : b.vkeys = a.vkeys) (hc : b.cur = a.cur) (hs 
   rw [hk, hc, hs, hd]
   exact h
 
+theorem ke_ite_pop (c : Prop) [Decidable c] (s : St) : KE s (if c then s else popScope s) := by
+  split
+  · exact KE.refl s
+  · exact ke_popScope s
+
 theorem ke_doInline (fns : List Fn) (st : St) (fi : Nat) (a : List Arg) (o : Option (List String))
     (p : String) (as : List (String × AVal)) : KE st (doInline true fns st fi a o p as) := by
-  unfold OV.C18.doInline
+  unfold OV.C18.doInline OV.C18.doInlineWith
   split
   · exact (rawExt_fail st _).ke
   · rename_i f _
@@ -423,24 +446,24 @@ theorem ke_doInline (fns : List Fn) (st : St) (fi : Nat) (a : List Arg) (o : Opt
     · exact (rawExt_fail st _).ke
     · split
       · exact (rawExt_fail st _).ke
-      · split
-        · exact (rawExt_fail st _).ke
-        · simp only []
-          have k0 : KE st (if p = "" then st else pushScope st p) := by
-            split
-            · exact KE.refl st
-            · exact KE.same rfl rfl rfl rfl
-          have kr : KE (if p = "" then st else pushScope st p) (resolveArgs (if p = "" then st else pushScope st p) a).1 :=
-            (rawExt_resolveArgs a _).ke
-          have k1 := KE.trans kr (ke_inlineRun true (resolveArgs (if p = "" then st else pushScope st p) a).1
+      · simp only []
+        have k0 : KE st (if p = "" then st else pushScope st p) := by
+          split
+          · exact KE.refl st
+          · exact KE.same rfl rfl rfl rfl
+        have kr : KE (if p = "" then st else pushScope st p) (resolveArgs (if p = "" then st else pushScope st p) a).1 :=
+          (rawExt_resolveArgs a _).ke
+        have k2 : ∀ s : St, KE s (if p = "" then s else popScope s) := by
+          intro s
+          split
+          · exact KE.refl s
+          · exact ke_popScope s
+        split
+        · exact KE.trans (KE.trans k0 (KE.trans kr (ke_ite_pop _ _))) (rawExt_fail _ _).ke
+        · have k1 := KE.trans kr (ke_inlineRun true (resolveArgs (if p = "" then st else pushScope st p) a).1
             (resolveFn (effectiveAttrs true f as) f)
             (resolveArgs (if p = "" then st else pushScope st p) a).2
             (o.map (fun o => o.map (qualifyValue st.cur))))
-          have k2 : ∀ s : St, KE s (if p = "" then s else popScope s) := by
-            intro s
-            split
-            · exact KE.refl s
-            · exact ke_popScope s
           exact KE.congr rfl rfl rfl rfl (KE.trans k0 (KE.trans k1 (k2 _)))
 
 theorem Inv.doInline (fns : List Fn) (st : St) (fi : Nat) (a : List Arg) (o : Option (List String))
@@ -462,6 +485,7 @@ theorem Inv.step (fns : List Fn) (st : St) (it : Item) (h : Inv st) :
   | inline f a o p as => exact Inv.doInline fns st f a o p as h
   | beginSub g i => exact Inv.doBeginSub st g i h
   | endSub r d => exact Inv.doEndSub st r d h
+  | abortSub => exact Inv.rawExt h (rawExt_doAbortSub st)
   | output hd n =>
     simp only [OV.C18.step, doOutput]
     split
